@@ -437,8 +437,18 @@ func (w *World) handBack(id string, res *Result) {
 		w.bad("release-refused", "ReleasePlayers(%s, %v) failed: %v", id, out, err)
 	}
 	if broke {
+		// each player of a broken table must now be queued (in the regulator's own queue) or on another live table
+		queued := map[string]bool{}
+		for _, q := range w.snapshot().WaitingQueue {
+			queued[q] = true
+		}
 		for _, p := range out {
-			if l := w.Loc[p]; l != "queue" && (l == id || w.Tab[l] == nil) {
+			l := w.Loc[p]
+			_, onLive := w.Tab[l]
+			if !(onLive && l != id) && !queued[p] {
+				w.badP("C20", "broken-table-player-lost", "player %s of broken table %s was handed back but is neither in the waiting queue nor on another live table", p, id)
+			}
+			if l != "queue" && (l == id || w.Tab[l] == nil) {
 				w.badP("C20", "broken-table-player-lost", "player %s of broken table %s is neither queued nor on a live table (%s)", p, id, l)
 			}
 		}
